@@ -52,7 +52,7 @@ func init() {
 		Technique:   "reference-model trace monitor (map + sorted key list) over systematic small-scope sweep + seeded random key sets",
 		Assumptions: []string{"the map model and the generators are trusted", "the trie is backed by queue.Queue as in the package's own example", "Put with an empty key is outside the property's domain and not exercised", "single goroutine; concurrency is C01/C02"}})
 	reg(&propCfg{ID: "C10", Pkg: "./props/c10", Variants: simple(false),
-		Level:       "held on every executed case: complete sweep of all Put/Remove sequences up to length 6 (thorough 7) over keys 0..5, seeded random sequences over up to 100 keys and sorted/reversed/random bulk loads of 200-2000 (thorough 50000) keys with interleaved removes and re-puts; Size/IsEmpty/Height bound/Get of every probe key/Traverse compared with a map model",
+		Level:       "held on every executed case: complete sweep of all Put/Remove sequences up to length 6 (thorough 7) over keys 0..5, seeded random sequences over up to 100 keys and sorted/reversed/random bulk loads of 200-2000 (thorough 50000) keys with interleaved removes and re-puts, 20000 (400000) insertion orders of 4-200 keys built from ascending/descending runs over shuffled key blocks, alternating runs, zigzag and middle-out orders; the height bound after every single step, Size/IsEmpty/Get of every probe key/Traverse compared with a map model",
 		Technique:   "reference-model trace monitor (map model + logarithmic height bound) over systematic small-scope sweep + seeded random and bulk sequences",
 		Assumptions: []string{"the map model and the generators are trusted", "the slot-file announcement is truncated for bulk cases (they are re-generated from the seed, not re-executed from the slot)", "BTree is single-threaded by contract"}})
 	reg(&propCfg{ID: "C19", Pkg: "./props/c19", Variants: simple(false),
